@@ -38,6 +38,9 @@ package api
 // The snapshot's job and node tables are filled by the cache snapshot only; the scheduling actions read them.
 //@ stable ClusterInfo.PodGroupInfos
 //@ stable ClusterInfo.Nodes
+// added by exec2 (allocate.Execute re-pushes the popped job after Commit: PushJob [queueKnown] must survive the havocs)
+//@ stable ClusterInfo.Queues
+//@ stable maptype map[common_info.QueueID]*queue_info.QueueInfo
 //@ stable maptype map[common_info.PodGroupID]*podgroup_info.PodGroupInfo
 //@ stable maptype map[string]*node_info.NodeInfo
 
